@@ -253,6 +253,13 @@ func stringValues(c *engine.Ctx, name string, root *jsonfault.Node, paths []json
 			menu = append(menu, tk, "x"+tk+"y", tk+"x")
 		}
 	}
+	// characters whose upper- or lower-case form has another byte length (offsets computed on a case-mapped copy do not
+	// fit the original) in front of every structural token
+	for _, tk := range gen.StructuralTokens() {
+		for _, run := range []string{"ȺȺȺȺ", "İİİİ", "ßßßß"} {
+			menu = append(menu, run+tk+"x")
+		}
+	}
 	for pi := range paths {
 		par := root
 		for _, i := range paths[pi][:len(paths[pi])-1] {
@@ -275,7 +282,7 @@ func stringValues(c *engine.Ctx, name string, root *jsonfault.Node, paths []json
 			})
 		}
 	}
-	c.Bound(name+"-string-values", fmt.Sprintf("%d string-valued members x (%d adversarial contents + %d values from the vocabulary of the library's sources)", n, len(stringMenu), len(menu)-len(stringMenu)))
+	c.Bound(name+"-string-values", fmt.Sprintf("%d string-valued members x (%d adversarial contents + %d values from the vocabulary of the library's sources, among them runs of characters whose case mapping changes their byte length in front of every structural token)", n, len(stringMenu), len(menu)-len(stringMenu)))
 }
 
 // growth: arrays of k copies of their first element; the parsed document must not grow faster than
